@@ -430,9 +430,11 @@ func genC20(seed uint64, tier string) *Scenario {
 	r, s := genBase(seed, tier)
 	s.Oracles = []string{"recv_payload", "status_error"}
 	s.Net.StallPct, s.Net.StallNs = 0, 0
-	if s.Net.LatencyNs > 100000 {
-		s.Net.LatencyNs = 100000
-	}
+	// no latency: after a cut the client's writes fail at once while its reader
+	// sees the end only when the data in flight has arrived; in that window new
+	// attempts are retried transparently in a loop that never blocks, which
+	// freezes simulated time (see genC18)
+	s.Net.LatencyNs = 0
 	if r.Chance(1, 4) {
 		s.Net.DialDelayNs = int64(core.Pick(r, 1000, 1000000, 50000000))
 	}
